@@ -699,9 +699,12 @@ class Remoter(tyming.Tymee):
 
     def refresh(self):
         """
-        Restart tymer
+        Restart tymer at current tyme so tymeout is measured from latest activity
         """
-        self.tymer.restart()
+        if self.tymer.tymth:  # wound so has a current tyme
+            self.tymer.start()
+        else:  # not wound yet so no tyme to measure from
+            self.tymer.restart()
 
 
     def receive(self):
